@@ -416,16 +416,36 @@ def rule_R6(chk, repo):
     sums = [c for c in ast.walk(loop) if isinstance(c, ast.Call) and is_sink(c) and
             any(isinstance(b, ast.BinOp) and isinstance(b.op, ast.Add) for a in c.args for b in ast.walk(a))]
     tests = [t for t in ast.walk(loop) if isinstance(t, ast.If)]
-    okm = len(pops) == 1 and len(sums) == 1 and len(tests) == 1 and any(pops[0] is x for x in ast.walk(tests[0])) and \
-        any(sums[0] is x for s_ in tests[0].body for x in ast.walk(s_))
+
+    def arm_of(node):
+        for t in tests:
+            for arm, stmts in (('body', t.body), ('orelse', t.orelse)):
+                if any(node is x for s_ in stmts for x in ast.walk(s_)):
+                    return (id(t), arm)
+        return None
+    okm = len(pops) == 1 and len(sums) == 1 and arm_of(pops[0]) is not None and arm_of(pops[0]) == arm_of(sums[0])
     chk.ob(rid, where(repo, fi, loop), 'OpGraphEdge.add: on a match the old entry is removed and the sum of both coefficients '
            're-inserted (in the same branch)', okm, f'{len(pops)} pop(s), {len(sums)} summed insertion(s)', key=f'{rid}|match')
     if tests:
-        t = tests[0].test
-        okt = isinstance(t, ast.Compare) and len(t.ops) == 1 and isinstance(t.ops[0], ast.Eq) and \
-            {norm(t.left), norm(t.comparators[0])} & {oid} and any(x.endswith('[0]') for x in (norm(t.left), norm(t.comparators[0])))
-        chk.ob(rid, where(repo, fi, tests[0]), f'OpGraphEdge.add: the match compares the stored operator id with `{oid}`', bool(okt),
-               norm(t), key=f'{rid}|test')
+        # the comparison `<stored entry>[0] == <incoming id>` - in the loop itself or in a search helper it calls
+        def id_compare(root, idname):
+            for t_ in ast.walk(root):
+                if isinstance(t_, ast.Compare) and len(t_.ops) == 1 and isinstance(t_.ops[0], ast.Eq):
+                    sides = (norm(t_.left), norm(t_.comparators[0]))
+                    if idname in sides and any(x.endswith('[0]') for x in sides):
+                        return t_
+            return None
+        found = id_compare(loop, oid)
+        if found is None:
+            for c in ast.walk(loop):
+                if isinstance(c, ast.Call) and isinstance(c.func, ast.Name):
+                    r_ = repo.resolve_name(fi.module, c.func.id)
+                    if r_ and r_[0] == 'func':
+                        for k_, a_ in enumerate(c.args):
+                            if isinstance(a_, ast.Name) and a_.id == oid and k_ < len(r_[1].params):
+                                found = found or id_compare(r_[1].node, r_[1].params[k_])
+        chk.ob(rid, where(repo, fi, tests[0]), f'OpGraphEdge.add: the match compares the stored operator id with `{oid}`',
+               found is not None, norm(tests[0].test), key=f'{rid}|test')
         n += 1
     return n + 1
 
